@@ -195,7 +195,7 @@ def r5_groups(facts, rep):
                 continue
             n += 1
             for escape in (False, True):
-                dom = c12.LexDomain(ats)
+                dom = c12.LexDomain(ats, facts=facts)
                 it = core.Interp(facts, dom, budget=200000)
                 st = dom.setlex({(0, 0): c12.lexer_value(escape)}, lo, None)
                 kinds = set()
